@@ -413,7 +413,7 @@ def smooth_spec(dset, freq_window=3, dir_window=3):
     dsout = dset.sortby(attrs.DIRNAME)
 
     # Avoid problems when extending dirs with wrong data type
-    dsout[attrs.DIRNAME] = dset[attrs.DIRNAME].astype("float32")
+    dsout[attrs.DIRNAME] = dsout[attrs.DIRNAME].astype("float32")
 
     # Extend circular directions to take care of edge effects
     dirs = dsout[attrs.DIRNAME].values
